@@ -68,12 +68,11 @@ class H(Hooks):
                 ctx.probe("uncompleted_before_unscheduled")
             if name == "ongoing_operations" and got:
                 ctx.probe("operation_ongoing_at_query_time")
-        elif name == "earliest_start_time":
-            ready = m.ready()
-            if ready:
-                j, p = ready[arg % len(ready)]
-                got = w.call_query(name, w.op_of(j, p))
-                ctx.check(got == m.est1(j, p), "query_equals_spec", lambda: f"earliest_start_time(({j},{p})) = {got}, spec {m.est1(j, p)}", query=name)
+        elif name in ("earliest_start_time", "min_start_time", "start_time"):
+            r = w.arg_query(name, arg)
+            if r is not None:
+                got, exp, what = r
+                ctx.check(got == exp, "query_equals_spec", lambda: f"{name}({what}) = {got}, spec {exp} (earlier in this state: {before})", query=name)
         elif name == "next_operation":
             j = arg % m.nj
             nxt = m.nxt[j]
